@@ -98,6 +98,7 @@ Proof.
     destruct (Hc q Hrq) as [_ [_ [Q3 _]]]. rewrite Q3. apply (inv_I5b s HI o q); congruence.
   - intros o Ho H1. apply Hreg in Ho. destruct (Hc o Ho) as [_ [_ [G3 [_ [G5 _]]]]]. rewrite G5.
     apply (inv_I5c s HI); congruence.
+  - rewrite Hr. apply (inv_rnodup s HI).
 Qed.
 
 Lemma same_core_refl : forall a, same_core a a.
@@ -115,6 +116,7 @@ Proof.
     try (intros ? ? [p Hp]; discriminate); try (intros ? ? ? [p Hp]; discriminate).
   - constructor.
   - intros r [].
+  - constructor.
 Qed.
 
 (* ------------------------------------------------------------------ alloc: Documentable.__init__ *)
@@ -258,6 +260,7 @@ Section AddChildObject.
         destruct (N.eq_dec o q) as [->|Hoq]; [fold st in Hqcan; congruence|].
         rewrite st1_cont_other by exact Hoq. apply fresh_reg in Ho. destruct Ho as [->|Ho]; [exact Hocont|].
         apply (inv_I5c s HI); assumption.
+      - unfold s'. cbn. apply (inv_rnodup s HI).
     Qed.
   End Fresh.
 
@@ -521,6 +524,7 @@ Section AddChildObject.
         destruct (N.eq_dec o q) as [->|Hoq]; [unfold st in H1; congruence|].
         rewrite st2_cont_other by exact Hoq. apply dup_reg in Ho. destruct Ho as [->|Ho]; [exact Hocont|].
         apply (inv_I5c s HI); assumption.
+      - unfold s'. cbn. apply (inv_rnodup s HI).
     Qed.
   End Dup.
 
@@ -679,6 +683,7 @@ Section AddChildObject.
         destruct (N.eq_dec o q) as [->|Hoq]; [unfold st in H1; congruence|].
         rewrite Hcoth by exact Hoq. apply rm_reg in Ho. destruct Ho as [->|[Ho _]]; [exact Hocont|].
         apply (inv_I5c s HI); assumption.
+      - unfold s'. cbn. apply (inv_rnodup s HI).
     Qed.
   End Replace.
 End AddChildObject.
@@ -825,6 +830,7 @@ Proof.
   - intros o p Ho Hp H1 H2. rewrite Hst in *. apply Hreg in Ho. destruct Ho as [->|Ho]; [congruence|]. apply (inv_I5a s HI o p); assumption.
   - intros o p Ho Hp H1. rewrite Hst in *. apply Hreg in Ho. destruct Ho as [->|Ho]; [congruence|]. apply (inv_I5b s HI o p); assumption.
   - intros o Ho H1. rewrite Hst in *. apply Hreg in Ho. destruct Ho as [->|Ho]; [exact Hoc|]. apply (inv_I5c s HI); assumption.
+  - unfold s'. cbn. apply NoDup_snoc; [apply (inv_rnodup s HI)|]. intros Hin. apply Hun. apply (inv_roots s HI ob Hin).
 Qed.
 
 (* the registry entry of <path of q>.<n> is a child of q named n *)
@@ -890,6 +896,93 @@ Proof.
   - intros n' Hne. unfold cget, cset. rewrite (cget_cset_ne _ _ _ _ Hne). apply Hget. exact Hne.
 Qed.
 
+(* ------------------------------------------------------------------ "the last wins" at top level: the registered
+   top-level module `first` is removed with everything below it and leaves rootobjects; the new module takes its place *)
+Lemma add_replace_root_inv : forall s ob n first T m1 u,
+    Inv s -> ob < next s -> ~ reg s ob -> ocont (store s ob) = [] -> oparent (store s ob) = None ->
+    oname (store s ob) = n -> fullpath s ob = Some [n] ->
+    rget [n] (allobj s) = Some first -> covered s first -> subtree s first = Some T ->
+    del_walk s T (allobj s) = Some m1 ->
+    Inv (mkState (store s) (next s) (m1 ++ [([n], ob)]) (remove1 first (roots s) ++ [ob]) (depthb s) u).
+Proof.
+  intros s ob n first T m1 u HI Hlt Hun Hoc Hop Hon Hobp Hf Hcov HT Hm1.
+  set (st := store s). set (s' := mkState _ _ _ _ _ _).
+  assert (Hfr : reg s first) by (exists [n]; exact Hf).
+  assert (Hfp : fullpath s first = Some [n]) by (apply (inv_I1 s HI); exact Hf).
+  assert (Hfpar : oparent (st first) = None).
+  { destruct (oparent (st first)) as [q'|] eqn:E; [|reflexivity]. exfalso.
+    unfold fullpath in Hfp. destruct (fullpath_f_child _ _ _ _ _ E Hfp) as [pq [Hpq Heq]].
+    apply fullpath_f_nonempty in Hpq. apply (f_equal (@length name)) in Heq. rewrite app_length in Heq. cbn in Heq.
+    destruct pq; [apply Hpq; reflexivity | cbn in Heq; lia]. }
+  assert (HTin : forall x, In x T -> reg s x /\ anc st first x).
+  { intros x Hx. apply (desc_reg_anc s HI first x Hfr). eapply subtree_f_desc; [exact HT | exact Hx]. }
+  assert (HTcov : forall x, reg s x -> anc st first x -> In x T).
+  { intros x Hx Ha. eapply subtree_f_complete; [exact HT | apply Hcov; assumption]. }
+  assert (Hm : forall k x, rget k m1 = Some x <-> (rget k (allobj s) = Some x /\ ~ anc st first x)).
+  { intros k x. rewrite (del_walk_spec _ _ _ _ Hm1 k x). split; intros [H1 H2]; split; try exact H1.
+    - intros Ha. apply (H2 x (HTcov x (ex_intro _ k H1) Ha)). apply (inv_I1 s HI). exact H1.
+    - intros y Hy Hpy. destruct (HTin y Hy) as [Hry Hay]. apply H2.
+      assert (E : y = x) by (eapply (path_inj s HI); [exact Hry | exists k; exact H1 | exact Hpy | apply (inv_I1 s HI); exact H1]).
+      rewrite <- E. exact Hay. }
+  assert (Hfree : rget [n] m1 = None).
+  { destruct (rget [n] m1) as [x|] eqn:E; [|reflexivity]. exfalso. apply Hm in E. destruct E as [E1 E2].
+    rewrite Hf in E1. inversion E1; subst. apply E2. apply anc_refl. }
+  assert (Hrget : forall k, rget k (allobj s') = if path_eqb [n] k then Some ob else rget k m1).
+  { intros k. unfold s'. cbn. apply (aget_app_new path_eqb path_eqb_eq). exact Hfree. }
+  assert (Hreg : forall x, reg s' x <-> x = ob \/ (reg s x /\ ~ anc st first x)).
+  { intros x. unfold reg. split.
+    - intros [k Hk]. rewrite Hrget in Hk. destruct (path_eqb [n] k); [inversion Hk; auto|].
+      apply Hm in Hk. destruct Hk as [H1 H2]. right. split; [exists k; exact H1 | exact H2].
+    - intros [E|[[k Hk] Hna]].
+      + exists [n]. rewrite Hrget, path_eqb_refl. rewrite E. reflexivity.
+      + exists k. rewrite Hrget. destruct (path_eqb [n] k) eqn:E.
+        * apply path_eqb_eq in E. exfalso. rewrite <- E in Hk. rewrite Hf in Hk. inversion Hk; subst. apply Hna. apply anc_refl.
+        * apply Hm. auto. }
+  assert (Hroots : forall r, In r (roots s') <-> r = ob \/ (In r (roots s) /\ r <> first)).
+  { intros r. unfold s'. cbn. rewrite in_app_iff, (in_remove1_nodup first (roots s) r (inv_rnodup s HI)). cbn. split.
+    - intros [H|[H|[]]]; auto.
+    - intros [H|H]; auto. }
+  assert (Hst : store s' = st) by reflexivity.
+  assert (Hfull : forall x, fullpath s' x = fullpath s x) by reflexivity.
+  (* a survivor that is a child / root cannot be first *)
+  assert (Hsurv : forall o, ~ anc st first o -> o <> first) by (intros o Hna E; apply Hna; rewrite E; apply anc_refl).
+  constructor.
+  - unfold s'. cbn. apply (nodup_app_new path_eqb path_eqb_eq); [|exact Hfree].
+    apply (del_walk_nodup _ _ _ _ Hm1). apply (inv_keys s HI).
+  - intros o Ho. rewrite Hst. apply Hreg in Ho. destruct Ho as [->|[Ho _]]; [unfold st; rewrite Hoc; constructor|].
+    apply (inv_ckeys s HI). exact Ho.
+  - intros p o Hp. assert (Ho : reg s' o) by (exists p; exact Hp). apply Hreg in Ho. unfold s'. cbn.
+    destruct Ho as [->|[Ho _]]; [exact Hlt | apply (reg_lt s HI); exact Ho].
+  - intros p o Hp. rewrite Hfull. rewrite Hrget in Hp. destruct (path_eqb [n] p) eqn:E.
+    + inversion Hp as [E2]. apply path_eqb_eq in E. rewrite <- E, <- E2. exact Hobp.
+    + apply Hm in Hp. apply (inv_I1 s HI). apply Hp.
+  - intros o p Ho Hp. rewrite Hst in Hp. apply Hreg. right. apply Hreg in Ho. destruct Ho as [->|[Ho Hna]].
+    + unfold st in Hp. congruence.
+    + split; [eapply (inv_par s HI); eauto | intros Ha; apply Hna; eapply anc_step; eauto].
+  - intros o n' c Ho Hin. rewrite Hst in *. apply Hreg in Ho.
+    destruct Ho as [->|[Ho Hna]]; [unfold st in Hin; rewrite Hoc in Hin; destruct Hin|].
+    destruct (inv_cont s HI o n' c Ho Hin) as [G1 [G2 G3]]. split; [|split; [exact G2 | exact G3]].
+    apply Hreg. right. split; [exact G1|]. intros Ha. destruct (anc_inv _ _ _ Ha) as [E|[p [Hp Hap]]].
+    + rewrite <- E in G2. fold st in G2. rewrite Hfpar in G2. discriminate.
+    + fold st in G2. rewrite G2 in Hp. inversion Hp as [E2]. rewrite <- E2 in Hap. exact (Hna Hap).
+  - intros r Hr. apply Hroots in Hr. rewrite Hst. destruct Hr as [->|[Hr Hne]].
+    + split; [apply Hreg; left; reflexivity | exact Hop].
+    + destruct (inv_roots s HI r Hr) as [G1 G2]. split; [|exact G2]. apply Hreg. right. split; [exact G1|].
+      intros Ha. destruct (anc_inv _ _ _ Ha) as [E|[p [Hp _]]]; [apply Hne; auto | fold st in G2; rewrite G2 in Hp; discriminate].
+  - intros o p Ho Hp. rewrite Hst in *. apply Hreg in Ho. destruct Ho as [->|[Ho _]]; [unfold st in Hp; congruence|].
+    apply (inv_I3 s HI); assumption.
+  - intros o Ho Hp. rewrite Hst in Hp. apply Hreg in Ho. apply Hroots. destruct Ho as [->|[Ho Hna]]; [left; reflexivity|].
+    right. split; [apply (inv_top s HI); assumption | apply Hsurv; exact Hna].
+  - intros o p Ho Hp H1 H2. rewrite Hst in *. apply Hreg in Ho. destruct Ho as [->|[Ho _]]; [unfold st in Hp; congruence|].
+    apply (inv_I5a s HI o p); assumption.
+  - intros o p Ho Hp H1. rewrite Hst in *. apply Hreg in Ho. destruct Ho as [->|[Ho _]]; [unfold st in Hp; congruence|].
+    apply (inv_I5b s HI o p); assumption.
+  - intros o Ho H1. rewrite Hst in *. apply Hreg in Ho. destruct Ho as [->|[Ho _]]; [exact Hoc|].
+    apply (inv_I5c s HI); assumption.
+  - unfold s'. cbn. apply NoDup_snoc; [apply nodup_remove1; apply (inv_rnodup s HI)|].
+    intros Hin. apply in_remove1 in Hin. apply Hun. apply (inv_roots s HI ob Hin).
+Qed.
+
 (* ------------------------------------------------------------------ AddModule *)
 Lemma step_add_module_inv : forall s pkg n parent s', Inv s -> guard_add_module s pkg n parent ->
     step s (AddModule pkg n parent) = Some s' -> Inv s'.
@@ -901,6 +994,9 @@ Proof.
   assert (Hdep : depthb s1 = S (depthb s)) by (unfold alloc in Ea; inversion Ea; reflexivity).
   assert (Hcl : ocl (store s1 ob) = if pkg then CPackage else CModule) by (rewrite Hst; reflexivity).
   assert (Hmod : is_module (ocl (store s1 ob)) = true) by (rewrite Hcl; destruct pkg; reflexivity).
+  assert (Hcovf : forall first, covered s first -> covered s1 first).
+  { intros first Hcov. apply (covered_frame s s1 first HI Ha1); [|exact Hcov].
+    intros o Ho. rewrite Hoth; [apply same_core_refl|]. intros E. apply Hun. apply Hreg. rewrite <- E. exact Ho. }
   unfold add_unprocessed_module in H.
   destruct parent as [q|]; cbn [guard_add_module] in Hg.
   - destruct Hg as [Hq [Hqp Hdup]].
@@ -916,7 +1012,7 @@ Proof.
     rewrite Hobp in H. rewrite Ha1 in H.
     destruct (rget (pq ++ [n]) (allobj s)) as [first|] eqn:Ef.
     + assert (Hfne : first <> ob) by (intros E; apply Hun; apply Hreg; rewrite <- E; exists (pq ++ [n]); exact Ef).
-      destruct (Hdup pq first Hpq Ef) as [[Hfc ->]|[Hmodf [Hcond [Hinu Hcov]]]].
+      destruct (Hdup pq first Hpq Ef) as [[Hfc ->]|[Hmodf [Hcond Hcov]]].
       { rewrite (Hoth first Hfne), Hfc in H. rewrite Hcl in H. cbn in H. inversion H; subst s'. exact HI1. }
       rewrite (Hoth first Hfne), Hmodf in H. cbn [negb] in H. cbv iota in H.
       assert (Hcond' : ocls_eqb (ocl (store s first)) CPackage && negb (ocls_eqb (ocl (store s1 ob)) CPackage) = false).
@@ -924,15 +1020,15 @@ Proof.
       rewrite Hcond' in H. unfold remove_tree in H.
       destruct (subtree s1 first) as [T|] eqn:ET; [|discriminate].
       destruct (del_walk s1 T (allobj s1)) as [m1|] eqn:Em1; [|discriminate].
-      destruct (negb (existsb (N.eqb first) (unproc s1))); [discriminate|].
-      assert (Hcov1 : covered s1 first).
-      { apply (covered_frame s s1 first HI Ha1); [|exact Hcov].
-        intros o Ho. rewrite Hoth; [apply same_core_refl|]. intros E. apply Hun. apply Hreg. rewrite <- E. exact Ho. }
+      destruct (modtree_f (S (depthb s1)) (store s1) first) as [mods|]; [|discriminate].
+      assert (Hcov1 : covered s1 first) by (apply Hcovf; exact Hcov).
       assert (Hq1 : reg s1 q) by (apply Hreg; exact Hq).
       assert (Hop : oparent (store s1 ob) = Some q) by (rewrite Hst; reflexivity).
       assert (Hon : oname (store s1 ob) = n) by (rewrite Hst; reflexivity).
       assert (Ef1 : rget (pq ++ [n]) (allobj s1) = Some first) by (rewrite Ha1; exact Ef).
       destruct (entry_parent s1 q pq n first HI1 Hq1 (Hfp q pq Hq Hpq) Ef1) as [Hfpar Hfname].
+      assert (Hnotroot : remove1 first (roots s1) = roots s1).
+      { apply remove1_absent. intros Hin. destruct (inv_roots s1 HI1 first Hin) as [_ G]. congruence. }
       rewrite (Hoth first Hfne) in Hfpar, Hfname. rewrite Hfpar, Hfname in H.
       assert (Hfin : forall st0,
                  (forall x, same_core (st0 x) (store s1 x) \/ (x = q /\ oname (st0 x) = oname (store s1 x) /\
@@ -942,14 +1038,14 @@ Proof.
                  (forall n' c, In (n', c) (ocont (st0 q)) -> In (n', c) (ocont (store s1 q))) ->
                  (forall n', n <> n' -> cget n' (ocont (st0 q)) = cget n' (ocont (store s1 q))) ->
                  forall r r',
-                 match fullpath (mkState st0 (next s1) m1 (roots s1) (depthb s1) r) ob with
+                 match fullpath (mkState st0 (next s1) m1 (remove1 first (roots s1)) (depthb s1) r) ob with
                  | Some fn' => match rget fn' m1 with
                                | Some _ => None
-                               | None => add_object (mkState st0 (next s1) m1 (roots s1) (depthb s1) r') ob
+                               | None => add_object (mkState st0 (next s1) m1 (remove1 first (roots s1)) (depthb s1) r') ob
                                end
                  | None => None
                  end = Some s' -> Inv s').
-      { intros st0 Hst0 Hnd0 Hincl0 Hget0 r r' H0.
+      { intros st0 Hst0 Hnd0 Hincl0 Hget0 r r' H0. rewrite Hnotroot in H0.
         destruct (fullpath (mkState st0 (next s1) m1 (roots s1) (depthb s1) r) ob) as [fn'|]; [|discriminate].
         destruct (rget fn' m1); [discriminate|].
         refine (add_replace_finish s1 ob q n pq first T m1 st0 r' s' HI1 Hlt _ Hop Hon Hq1 Hun _ (Hfp q pq Hq Hpq) Hobp _ _
@@ -987,16 +1083,44 @@ Proof.
       * intros prev Hprev. rewrite Ha1, Ef in Hprev. discriminate.
   - assert (Hobp : fullpath s1 ob = Some [n]).
     { unfold fullpath. rewrite Hdep. cbn. rewrite Hst. reflexivity. }
-    rewrite Hobp in H. rewrite Ha1 in H. destruct Hg as [Hnew|[first [Hf [Hfc ->]]]].
-    + rewrite Hnew in H.
-      assert (HI1u : Inv (set_unproc s1 (unproc s1 ++ [ob])))
+    assert (Hop : oparent (store s1 ob) = None) by (rewrite Hst; reflexivity).
+    rewrite Hobp in H. rewrite Ha1 in H.
+    destruct (rget [n] (allobj s)) as [first|] eqn:Ef.
+    + assert (Hfne : first <> ob) by (intros E; apply Hun; apply Hreg; rewrite <- E; exists [n]; exact Ef).
+      destruct (Hg first eq_refl) as [[Hfc ->]|[Hmodf [Hcond Hcov]]].
+      { rewrite (Hoth first Hfne), Hfc in H. rewrite Hcl in H. cbn in H. inversion H; subst s'. exact HI1. }
+      rewrite (Hoth first Hfne), Hmodf in H. cbn [negb] in H. cbv iota in H.
+      assert (Hcond' : ocls_eqb (ocl (store s first)) CPackage && negb (ocls_eqb (ocl (store s1 ob)) CPackage) = false).
+      { rewrite Hcl. destruct pkg; cbn in *; [apply andb_false_r | exact Hcond]. }
+      rewrite Hcond' in H. unfold remove_tree in H.
+      destruct (subtree s1 first) as [T|] eqn:ET; [|discriminate].
+      destruct (del_walk s1 T (allobj s1)) as [m1|] eqn:Em1; [|discriminate].
+      destruct (modtree_f (S (depthb s1)) (store s1) first) as [mods|]; [|discriminate].
+      assert (Ef1 : rget [n] (allobj s1) = Some first) by (rewrite Ha1; exact Ef).
+      assert (Hfpar : oparent (store s first) = None).
+      { assert (Hp1 := inv_I1 s HI _ _ Ef). destruct (oparent (store s first)) as [q'|] eqn:E; [|reflexivity]. exfalso.
+        unfold fullpath in Hp1. destruct (fullpath_f_child _ _ _ _ _ E Hp1) as [pq [Hpq Heq]].
+        apply fullpath_f_nonempty in Hpq. apply (f_equal (@length name)) in Heq. rewrite app_length in Heq. cbn in Heq.
+        destruct pq; [apply Hpq; reflexivity | cbn in Heq; lia]. }
+      rewrite Hfpar in H.
+      cbn [store next allobj roots depthb unproc set_unproc set_allobj] in H.
+      unfold fullpath in H. cbn [store depthb] in H. unfold fullpath in Hobp. rewrite Hobp in H.
+      assert (Hfree : rget [n] m1 = None).
+      { destruct (rget [n] m1) as [x|] eqn:E; [|reflexivity]. exfalso.
+        apply (del_walk_spec _ _ _ _ Em1) in E. destruct E as [E1 E2]. rewrite Ef1 in E1. inversion E1; subst x.
+        apply (E2 first); [eapply subtree_f_head; exact ET | apply (inv_I1 s1 HI1); exact Ef1]. }
+      rewrite Hfree in H. unfold add_object, set_unproc in H. cbn [store next allobj roots depthb unproc] in H.
+      rewrite Hop, Hmod in H.
+      unfold fullpath in H. cbn [store depthb] in H. rewrite Hobp in H. cbn [allobj] in H. rewrite Hfree in H.
+      inversion H; subst s'. clear H.
+      refine (add_replace_root_inv s1 ob n first T m1 _ HI1 Hlt Hun _ Hop _ Hobp Ef1 (Hcovf first Hcov) ET Em1).
+      * rewrite Hst. reflexivity.
+      * rewrite Hst. reflexivity.
+    + assert (HI1u : Inv (set_unproc s1 (unproc s1 ++ [ob])))
         by (apply (Inv_frame s1); cbn; auto; try lia; intros; apply same_core_refl).
       apply (add_object_root_inv (set_unproc s1 (unproc s1 ++ [ob])) ob n s' HI1u Hlt Hun);
         cbn [store set_unproc allobj]; try (rewrite Hst; reflexivity); try assumption.
-      rewrite Ha1. exact Hnew.
-    + rewrite Hf in H.
-      assert (Hfne : first <> ob) by (intros E; apply Hun; apply Hreg; rewrite <- E; exists [n]; exact Hf).
-      rewrite (Hoth first Hfne), Hfc in H. rewrite Hcl in H. cbn in H. inversion H; subst s'. exact HI1.
+      rewrite Ha1. exact Ef.
 Qed.
 
 (* ------------------------------------------------------------------ SetBases, PostProcess *)
